@@ -4,6 +4,7 @@ import (
 	"fmt"
 	"net/url"
 	"reflect"
+	"regexp"
 	"strconv"
 	"strings"
 	"sync"
@@ -416,11 +417,12 @@ func c15valueFor(t *T, kind string) string {
 		"bool": {"true", "false", "1", "0", "T", "f"}, "string": {"x", "hello", "", "a b", "5"},
 		"int8": {"0", "-128", "127", "5", "+7"}, "int16": {"-32768", "32767", "12"}, "int32": {"2147483647", "-5"}, "int64": {"9223372036854775807", "-9223372036854775808", "3"}, "int": {"42", "-1"},
 		"uint8": {"0", "255", "9"}, "uint16": {"65535", "1"}, "uint32": {"4294967295"}, "uint64": {"18446744073709551615", "2"}, "uint": {"77"},
-		"float32": {"1.5", "-2", "0.25"}, "float64": {"3.25", "1e3", "-0.5"},
+		"float32": {"1.5", "-2", "0.25", "1_0", ".5", "5.", "+3", "0x1p-2", "inf"}, "float64": {"3.25", "1e3", "-0.5", "1_000.5", "1E-2", "1e1_0", "-Infinity", "NaN", "0X_1.8P+1", "0x1_0.p0"},
 	}
 	invalid := map[string][]string{
 		"bool": {"yes", "2", "TRUE ", ""}, "int8": {"128", "-129", "x", "", "1_0"}, "int16": {"32768", "1.5"}, "int32": {"2147483648"}, "int64": {"9223372036854775808", "0x10"}, "int": {"abc", " 1"},
 		"uint8": {"256", "-1", "+1"}, "uint16": {"65536"}, "uint32": {"4294967296"}, "uint64": {"18446744073709551616"}, "uint": {"-0", "1e3"},
+		"float32": {"1_", "_1", "1__0", "1_.5", "", "abc", "1e", "0x", "--1", "0x1", "+nan", "infin"}, "float64": {"1e_5", "._5", "1._5", "0x1.p", "0x_p1", "0x1p_1", "in", "1e+", "1 "},
 	}
 	if bad, ok := invalid[kind]; ok && t.R.Intn(25) == 0 {
 		return bad[t.R.Intn(len(bad))]
@@ -589,14 +591,16 @@ func c15genReq(t *T, fs []c15field) (string, []string) {
 	return strings.Join(recs, ";"), parts
 }
 
+var c15jsonNumber = regexp.MustCompile(`^-?(0|[1-9][0-9]*)(\.[0-9]+)?([eE][+-]?[0-9]+)?$`)
+
 // c15jsonFits: a JSON literal the standard decoder accepts for the kind without error
 func c15jsonFits(kind, v string) bool {
 	switch {
 	case kind == "bool":
 		return v == "true" || v == "false"
 	case strings.HasPrefix(kind, "float"):
-		_, err := strconv.ParseFloat(v, 64)
-		return err == nil
+		// a JSON number: -? digits (. digits)? ([eE] [+-]? digits)? — not every text ParseFloat accepts
+		return c15jsonNumber.MatchString(v)
 	case strings.HasPrefix(kind, "uint"):
 		bits, _ := strconv.Atoi(strings.TrimPrefix(kind, "uint"))
 		if bits == 0 {
